@@ -57,7 +57,7 @@ impl Property for Escape {
     }
     fn budget(&self, tier: Tier) -> Budget {
         Budget {
-            cases: tier.pick(300_000, 20_000_000),
+            cases: tier.pick(1_500_000, 20_000_000),
             tape_len: 1500,
         }
     }
@@ -96,6 +96,18 @@ impl Property for Escape {
                 fin.value_delimiter = Some(',');
                 spec.settings.dont_delimit_trailing_values = true;
             }
+        }
+        if fin.last && t.chance(1, 2) {
+            // a terminated multi-value positional in front of the `last` one: whether or not its run was closed
+            // before the marker, the tail belongs to the `last` positional
+            spec.args.push(ArgSpec {
+                id: "mterm".to_owned(),
+                action: if t.chance(1, 3) { Action::Append } else { Action::Set },
+                num_args: Some((1, usize::MAX)),
+                value_terminator: Some(";".to_owned()),
+                parser: if os { ParserSpec::OsStr } else { ParserSpec::Str },
+                ..Default::default()
+            });
         }
         spec.args.push(fin.clone());
         if os {
